@@ -924,6 +924,40 @@ def with_constant_marker(ag):
     return b
 
 
+def permute_presentation(rng, ag):
+    """The same grammar written down differently: rules in another order, the edges of every rule in another order, the
+    nodes of every rule numbered differently (attachments and external nodes renumbered with them), labels registered
+    in another order.  Nothing a nonterminal's tensor depends on changes."""
+    import copy
+    b = copy.deepcopy(ag)
+    for r in b['rules']:
+        n = len(r['nodes'])
+        perm = list(range(n))
+        rng.shuffle(perm)                      # old position i -> new position perm[i]
+        nodes = [None] * n
+        for old, new in enumerate(perm):
+            nodes[new] = r['nodes'][old]
+        r['nodes'] = nodes
+        for e in r['edges']:
+            e['att'] = [perm[x - 1] + 1 for x in e['att']]
+        r['ext'] = [perm[x - 1] + 1 for x in r['ext']]
+        rng.shuffle(r['edges'])
+        r.pop('share', None)
+    rng.shuffle(b['rules'])
+    eo = list(b['elorder'])
+    rng.shuffle(eo)
+    b['elorder'] = eo
+    return b
+
+
+def build_fgg_fx_shifted(am, dtype, shift):
+    """Log-semiring FGG of a grammar returned by with_constant_marker, the marker weighing exp(-shift)"""
+    import torch
+    g = build_fgg_fx(am, 'log', dtype)[0]
+    g.factors['lam'].weights = torch.tensor(-float(shift), dtype=dtype)
+    return g
+
+
 def build_fgg_fx(ag, kind, dtype):
     """real FGG for a grid grammar: weights wfx/1024 (real) or their logarithms (log)"""
     import torch
